@@ -26,11 +26,16 @@ def handle(job):
     hp = A.HParams(delta=job["delta"], lr=job["lr"], sketch_size=int(job["k"]), algorithm=A.Algorithm[job["alg"]])
     shape = tuple(int(x) for x in job["shape"])
     init, update = A.generate_init_update(shape, hp)
-    state = init()
     upd = jax.jit(update) if job.get("jit") else update
+    # An earlier sequence through the SAME bound pair (state passed on as a caller does, not copied): the
+    # property speaks about every gradient sequence, so init() must hand out a fresh state every time
+    state = init()
+    for g in job["grads"][:2]:
+      state = upd(state, jnp.asarray(0.0), jnp.asarray(np.asarray(g, np.float64).reshape(shape)) * 3.0)
+    state = init()
     for g in job["grads"]:
       grad = jnp.asarray(np.asarray(g, np.float64).reshape(shape))
-      state = upd(dict(state), jnp.asarray(0.0), grad)
+      state = upd(state, jnp.asarray(0.0), grad)
       st = {k: np.asarray(v) for k, v in state.items()}
       out["steps"].append({
           "w": st["w"].ravel().tolist(),
